@@ -1021,7 +1021,8 @@ class AnyBetween(__Class):
             else:
                 message = f"Argument \"{c}\" is neither a string nor a token."
                 raise _ex.InvalidArgumentTypeException(message)
-        start, end = str(start), str(end)
+        # Tokens are represented by their (possibly escaped) pattern: keep the character itself.
+        start, end = (str(c)[-1:] if isinstance(c, _pre.Pregex) else c for c in (start, end))
         if ord(start) >= ord(end):
             raise _ex.InvalidRangeException(start, end)
         start = f"\\{start}" if start in __class__._to_escape else start
@@ -1068,7 +1069,8 @@ class AnyButBetween(__Class):
             else:
                 message = f"Argument \"{c}\" is neither a string nor a token."
                 raise _ex.InvalidArgumentTypeException(message)
-        start, end = str(start), str(end)
+        # Tokens are represented by their (possibly escaped) pattern: keep the character itself.
+        start, end = (str(c)[-1:] if isinstance(c, _pre.Pregex) else c for c in (start, end))
         if ord(start) >= ord(end):
             raise _ex.InvalidRangeException(start, end)
         start = f"\\{start}" if start in __class__._to_escape else start
@@ -1114,8 +1116,9 @@ class AnyFrom(__Class):
             else:
                 message = f"Argument \"{c}\" is neither a string nor a token."
                 raise _ex.InvalidArgumentTypeException(message)
-        chars = tuple((f"\\{c}" if c in __class__._to_escape else c) \
-            if isinstance(c, str) else str(c) for c in chars)
+        # Tokens are represented by their (possibly escaped) pattern: keep the character itself.
+        chars = tuple(c if isinstance(c, str) else str(c)[-1:] for c in chars)
+        chars = tuple(f"\\{c}" if c in __class__._to_escape else c for c in chars)
         super().__init__(f"[{''.join(chars)}]", is_negated=False)
 
 
@@ -1157,8 +1160,9 @@ class AnyButFrom(__Class):
             else:
                 message = f"Argument \"{c}\" is neither a string nor a token."
                 raise _ex.InvalidArgumentTypeException(message)
-        chars = tuple((f"\{c}" if c in __class__._to_escape else c)
-            if isinstance(c, str) else str(c) for c in chars)
+        # Tokens are represented by their (possibly escaped) pattern: keep the character itself.
+        chars = tuple(c if isinstance(c, str) else str(c)[-1:] for c in chars)
+        chars = tuple(f"\\{c}" if c in __class__._to_escape else c for c in chars)
         super().__init__(f"[^{''.join(chars)}]", is_negated=True)
 
 
